@@ -247,6 +247,49 @@ fn check_settings_case(rep: &mut Report, r: &mut Rng) {
     }
 }
 
+/// A DATA frame whose capsule type is unknown is ignored as a whole: whatever the capsule's
+/// declared length (exact, short, or running past the end of the frame) and whatever its body
+/// looks like, nothing inside it is interpreted.
+fn check_capsule_case(rep: &mut Report, r: &mut Rng) {
+    use wtransport_proto::capsule::Capsule;
+    let (ty, tc) = loop {
+        let (t, c) = match r.below(4) {
+            0 => (0x29 * r.below(1 << 20) + 0x17, "grease"),
+            1 => (*r.pick(&[0u64, 1, 0x3f, 0x40, 0x2842, 0x2844, 0x3fff, 0x4000, 0x3fff_ffff, 0x4000_0000, rv::MAX]), "boundary"),
+            2 => (r.range(0x2800, 0x2900), "near-close"),
+            _ => (r.varint62(), "random"),
+        };
+        if t != capsule::CLOSE_WEBTRANSPORT_SESSION {
+            break (t, c);
+        }
+    };
+    let (body, bc): (Vec<u8>, &str) = match r.below(5) {
+        0 => (vec![], "empty"),
+        1 => ({ let n = r.usize(1, 80); r.bytes(n) }, "random"),
+        2 => (capsule::close(r.next_u64() as u32, b"looks like a close"), "close-capsule-shaped"),
+        3 => ([capsule::encode(0x17 + 0x29 * 3, b"inner unknown"), capsule::close(9, b"inner close")].concat(), "capsule-sequence-shaped"),
+        _ => (h3::frame(h3::FRAME_DATA, &capsule::close(1, b"framed")), "data-frame-shaped"),
+    };
+    let (declared, dc) = match r.below(4) {
+        0 | 1 => (body.len() as u64, "exact"),
+        2 => (r.below(body.len() as u64 + 1), "short"),
+        _ => (body.len() as u64 + 1 + if r.chance(1, 4) { r.varint62() >> 2 } else { r.below(5000) }, "beyond-frame"),
+    };
+    rep.eval(format!("capsule|{tc}|{}B-type|{bc}|declared={dc}", rv::size(ty)));
+    let mut payload = rv::enc(ty);
+    payload.extend(rv::enc(declared));
+    payload.extend(&body);
+    crate::note_case("c13-capsule", &payload);
+    let frame = Frame::new_data(Cow::Borrowed(&payload));
+    if let Some(c) = Capsule::with_frame(&frame) {
+        rep.violation(
+            format!("C13|capsule|{bc}|declared={dc}"),
+            format!("a capsule of unknown type {ty:#x} (declared length {declared}, {} body bytes present) was interpreted as {:?} with a {}-byte payload", body.len(), c.kind(), c.payload().len()),
+            J::obj([("decoder", J::s("capsule")), ("input_hex", J::hex(&payload))]),
+        );
+    }
+}
+
 pub fn replay(rep: &mut Report, which: &str, input: &[u8]) {
     // replay = re-drain the recorded byte string on the recorded typestate and print what it yields
     for role in ROLES {
@@ -328,6 +371,14 @@ fn run_inner(a: &Args, shard: u64, shards: u64) -> Report {
         }
         let mut r = Rng::derive(a.seed, 0xC13_5E77 + (j << 8));
         check_settings_case(&mut rep, &mut r);
+    }
+    let nc: u64 = if a.miri { 10 } else if a.thorough { 300_000 } else { 60_000 };
+    for j in 0..nc {
+        if j % shards != shard {
+            continue;
+        }
+        let mut r = Rng::derive(a.seed, 0xC13_CA95 + (j << 8));
+        check_capsule_case(&mut rep, &mut r);
     }
     rep
 }
